@@ -15,6 +15,9 @@ type InEl struct {
 	Type   string `json:"type,omitempty"`
 	Stanza bool   `json:"stanza"`
 	End    int64  `json:"end"` // offset (exclusive) of its last byte in the sequence
+	// TextEnd, when set, is the offset at which its whole text has arrived although the WebSocket
+	// message that carries it is not finished yet (an empty final frame follows).
+	TextEnd int64 `json:"text_end,omitempty"`
 }
 
 type InboundOpts struct {
